@@ -112,43 +112,32 @@ Section Leaves.
     - entry. apply M_optint.
   Qed.
 
-  Definition section_nogap (s : section) : Prop :=
-    str_in (sec_kind s) gap_section_kinds = false /\ (forall f, sec_value s <> SVElem f).
-
-  Lemma M_section : forall g s, section_ok s = true -> (g = false -> section_nogap s) -> M G (sh_section g) (enc_section s).
+  Lemma M_section : forall s, section_ok s = true -> M G sh_section (enc_section s).
   Proof.
-    intros g [k v t] Hok Hg. unfold section_ok in Hok. cbn [sec_kind] in Hok. apply str_in_In in Hok.
+    intros [k v t] Hok. unfold section_ok in Hok. cbn [sec_kind] in Hok. apply str_in_In in Hok.
     unfold enc_section, sh_section. cbn [sec_kind sec_value sec_title].
     apply M_obj.
     - constructor; [|constructor].
-      + entry. apply M_lits. unfold section_kinds. destruct g; [assumption|].
-        apply filter_In. split; [assumption|]. destruct (Hg eq_refl) as [H _]. cbn [sec_kind] in H. now rewrite H.
+      + entry. now apply M_lits.
       + entry. destruct v as [s|l|f]; simpl.
         * eapply M_union; [left; reflexivity|apply M_str].
         * eapply M_union; [right; left; reflexivity|]. apply M_arr. apply Forall_forall. intros x _. apply M_any.
-        * destruct g; [|destruct (Hg eq_refl) as [_ H]; exfalso; eapply H; reflexivity].
-          eapply M_union; [right; right; left; reflexivity|]. apply M_map. apply Forall_forall. intros x _. apply M_any.
+        * eapply M_union; [right; right; left; reflexivity|]. apply M_map. apply Forall_forall. intros x _. apply M_any.
       + apply entry_optfield. destruct (truthy_title t) as [j|] eqn:T; [|exact I].
         destruct t as [[|c r]|]; simpl in T; try discriminate; inversion T; subst; entry; apply M_str.
     - destruct t as [[|c r]|]; reflexivity.
   Qed.
 
-  Definition doc_nogap (d : docstring) : Prop :=
-    ds_lineno d <> None /\ Forall section_nogap (ds_parsed d).
-
-  Lemma M_docstring : forall g d, doc_ok d = true -> (g = false -> doc_nogap d) -> M G (sh_docstring g) (enc_docstring d).
+  Lemma M_docstring : forall d, doc_ok d = true -> M G sh_docstring (enc_docstring d).
   Proof.
-    intros g [v l e secs] Hok Hg. unfold doc_ok in Hok. simpl in *.
+    intros [v l e secs] Hok. unfold doc_ok in Hok. simpl in *.
     unfold enc_docstring, sh_docstring. simpl.
     apply M_obj; [|reflexivity]. repeat constructor.
     - entry. apply M_str.
-    - entry. destruct g; [apply M_optint|]. destruct (Hg eq_refl) as [H _]. simpl in H.
-      destruct l as [z|]; [apply M_int|congruence].
+    - entry. apply M_optint.
     - entry. apply M_optint.
     - entry. apply M_arr. apply Forall_map. apply Forall_forall. intros s Hin.
-      apply M_section.
-      + rewrite forallb_forall in Hok. auto.
-      + intros ->. destruct (Hg eq_refl) as [_ H]. simpl in H. rewrite Forall_forall in H. auto.
+      apply M_section. rewrite forallb_forall in Hok. auto.
   Qed.
 
   Lemma M_param : forall p, param_ok p = true -> M G sh_parameter (enc_param p).
@@ -163,7 +152,7 @@ Section Leaves.
       + entry. now apply M_lits.
       + entry. apply M_annotation.
       + apply entry_optfield. destruct doc as [doc|]; simpl; [|exact I].
-        entry. apply M_docstring; [assumption|discriminate].
+        entry. now apply M_docstring.
     - destruct doc; reflexivity.
   Qed.
 
@@ -198,47 +187,18 @@ End ObjInd.
 
 (* ---------- the encoder's output is in the grammar ---------- *)
 
-Lemma G_enc_root : forall g, lookup root_nt (G_enc g) =
-  Some (ShUnion [sh_alias g; sh_object g "module"; sh_object g "class"; sh_object g "function"; sh_object g "attribute"]).
+Lemma G_enc_root : lookup root_nt G_enc =
+  Some (ShUnion [sh_alias; sh_object "module"; sh_object "class"; sh_object "function"; sh_object "attribute"]).
 Proof. reflexivity. Qed.
 
-Lemma local_gap_false : forall t, local_gap t = false ->
-  gapF1 t = false /\ gapF2 t = false /\ gapF3 t = false /\ gapF4 t = false /\ gapF5 t = false.
+Theorem enc_in_grammar : forall t, loadable t = true -> generated_by G_enc root_nt (enc_full t).
 Proof.
-  unfold local_gap. intros t H.
-  repeat (apply orb_false_iff in H; let K := fresh "K" in destruct H as [H K]). auto.
-Qed.
-
-Lemma doc_nogap_of_flags : forall d,
-  match ds_lineno d with None => true | Some _ => false end = false ->
-  existsb (fun s => str_in (sec_kind s) gap_section_kinds) (ds_parsed d) = false ->
-  existsb (fun s => match sec_value s with SVElem _ => true | _ => false end) (ds_parsed d) = false ->
-  doc_nogap d.
-Proof.
-  intros d H3 H4 H5. split.
-  - destruct (ds_lineno d); [discriminate|discriminate].
-  - apply Forall_forall. intros s Hin. split.
-    + apply not_true_is_false. intros F.
-      assert (E : existsb (fun s => str_in (sec_kind s) gap_section_kinds) (ds_parsed d) = true) by (apply existsb_exists; eauto).
-      congruence.
-    + intros f Ef.
-      assert (E : existsb (fun s => match sec_value s with SVElem _ => true | _ => false end) (ds_parsed d) = true).
-      { apply existsb_exists. exists s. split; [assumption|]. now rewrite Ef. }
-      congruence.
-Qed.
-
-Theorem enc_in_grammar : forall g t, loadable t = true -> (g = false -> known_gap t = false) ->
-  generated_by (G_enc g) root_nt (enc_full t).
-Proof.
-  intros g t. unfold generated_by. change (loadable t = true -> (g = false -> known_gap t = false) -> M (G_enc g) (ShRef root_nt) (enc_full t)).
+  intros t. unfold generated_by. change (loadable t = true -> M G_enc (ShRef root_nt) (enc_full t)).
   induction t as [name target path lineno endlineno|spec name path fp relf relpf lineno endlineno doc labels members IH] using obj_ind';
-    intros Hl Hg.
+    intros Hl.
   - (* alias *)
     eapply M_ref; [apply G_enc_root|]. eapply M_union; [left; reflexivity|].
     unfold sh_alias. cbn [enc_full].
-    assert (Hlin : g = false -> exists z, truthy_z lineno = Some (JInt z)).
-    { intros E. specialize (Hg E). simpl in Hg. apply local_gap_false in Hg. destruct Hg as [_ [H2 _]].
-      unfold gapF2 in H2. destruct lineno as [[|p|p]|]; simpl in *; try discriminate; eauto. }
     apply M_obj.
     + repeat (apply Forall_app; split); [repeat constructor| |].
       * entry. apply M_lit.
@@ -247,20 +207,12 @@ Proof.
       * entry. apply M_str.
       * apply entry_optfield. destruct lineno as [[|p|p]|]; simpl; try exact I; entry; apply M_int.
       * apply entry_optfield. destruct endlineno as [[|p|p]|]; simpl; try exact I; entry; apply M_int.
-    + destruct g.
-      * destruct lineno as [[|p|p]|], endlineno as [[|q|q]|]; reflexivity.
-      * destruct (Hlin eq_refl) as [z Hz].
-        destruct lineno as [[|p|p]|]; simpl in Hz; try discriminate; destruct endlineno as [[|q|q]|]; reflexivity.
+    + destruct lineno as [[|p|p]|], endlineno as [[|q|q]|]; reflexivity.
   - (* object *)
     cbn [loadable] in Hl. repeat (apply andb_true_iff in Hl; let K := fresh "K" in destruct Hl as [Hl K]).
     rename Hl into Hspec, K1 into Hfp, K0 into Hdoc, K into Hmem.
-    assert (Hloc : g = false -> local_gap (OObj spec name path fp relf relpf lineno endlineno doc labels members) = false
-                               /\ forallb (fun nm => negb (known_gap (snd nm))) members = true).
-    { intros E. specialize (Hg E). cbn [known_gap] in Hg. apply orb_false_iff in Hg. destruct Hg as [A B]. split; [assumption|].
-      apply forallb_forall. intros nm Hin. apply negb_true_iff. apply not_true_is_false. intros F.
-      assert (X : existsb (fun nm => known_gap (snd nm)) members = true) by (apply existsb_exists; eauto). congruence. }
     eapply M_ref; [apply G_enc_root|].
-    apply M_union with (a := sh_object g (kind_name spec)); [destruct spec; simpl; tauto|].
+    apply M_union with (a := sh_object (kind_name spec)); [destruct spec; simpl; tauto|].
     unfold sh_object. cbn [enc_full].
     apply M_obj.
     + repeat (apply Forall_app; split).
@@ -270,26 +222,18 @@ Proof.
         -- entry. apply M_str.
         -- entry. apply M_str.
         -- entry. destruct fp as [s|l|]; [| |discriminate]; simpl.
-           ++ destruct g; [eapply M_union; [left; reflexivity|]|]; apply M_str.
-           ++ destruct g.
-              ** eapply M_union; [right; left; reflexivity|]. apply M_arr. apply Forall_map. apply Forall_forall. intros x _. apply M_str.
-              ** destruct (Hloc eq_refl) as [A _]. apply local_gap_false in A. destruct A as [A _]. discriminate.
+           ++ eapply M_union; [left; reflexivity|]. apply M_str.
+           ++ eapply M_union; [right; left; reflexivity|]. apply M_arr. apply Forall_map. apply Forall_forall. intros x _. apply M_str.
         -- entry. apply M_str.
         -- entry. apply M_str.
       * apply entry_optfield. destruct lineno; simpl; [entry; apply M_int|exact I].
       * apply entry_optfield. destruct endlineno; simpl; [entry; apply M_int|exact I].
-      * apply entry_optfield. destruct doc as [d|]; simpl; [|exact I]. entry.
-        apply M_docstring; [assumption|]. intros E. destruct (Hloc E) as [A _]. apply local_gap_false in A.
-        destruct A as [_ [_ [A3 [A4 A5]]]]. unfold gapF3, gapF4, gapF5 in *. simpl in *.
-        now apply doc_nogap_of_flags.
+      * apply entry_optfield. destruct doc as [d|]; simpl; [|exact I]. entry. now apply M_docstring.
       * (* labels, members *)
         repeat (apply Forall_cons); try apply Forall_nil.
         -- entry. apply M_arr. apply Forall_map. apply Forall_forall. intros x _. apply M_str.
         -- entry. apply M_map. apply Forall_map. simpl. rewrite Forall_forall in IH |- *. intros nm Hin.
-           apply IH; [assumption| |].
-           ++ rewrite forallb_forall in Hmem. auto.
-           ++ intros E. destruct (Hloc E) as [_ B]. rewrite forallb_forall in B. specialize (B _ Hin).
-              now apply negb_true_iff in B.
+           apply IH; [assumption|]. rewrite forallb_forall in Hmem. auto.
       * (* kind-specific part *)
         destruct spec as [|bases decos|decos params returns|value annotation]; simpl in Hspec |- *.
         -- constructor.
@@ -308,31 +252,24 @@ Proof.
         try reflexivity; destruct value, annotation; reflexivity.
 Qed.
 
-(* ---------- inclusion of the gap-free grammar in the regenerated schema, and the main theorem ---------- *)
+(* ---------- inclusion of the grammar in the regenerated schema, and the main theorem ---------- *)
 
-Lemma grammar_in_schema_modulo_known : grammar_in_schema false = true.
-Proof. vm_compute. reflexivity. Qed.
-
-(* with the gaps left in, the checker does not accept (not a theorem about documents, see the refutations below) *)
-Lemma grammar_in_schema_full_rejected : grammar_in_schema true = false.
+Lemma grammar_in_schema_holds : grammar_in_schema = true.
 Proof. vm_compute. reflexivity. Qed.
 
 (* the kind literals used by the grammar are exactly enumerations.Kind *)
 Lemma object_kinds_tie : enc_object_kinds = ["module"; "class"; "function"; "attribute"; "alias"].
 Proof. reflexivity. Qed.
 
-Theorem grammar_docs_validate : forall j, generated_by (G_enc false) root_nt j -> exists fuel, validates_doc fuel j = Some true.
+Theorem grammar_docs_validate : forall j, generated_by G_enc root_nt j -> exists fuel, validates_doc fuel j = Some true.
 Proof.
-  intros j H. pose proof grammar_in_schema_modulo_known as T. unfold grammar_in_schema in T.
-  destruct (lookup root_nt (G_enc false)) as [sh|] eqn:L; [|discriminate].
-  exact (incl_sound (G_enc false) schema_root schema_defs root_nt sh incl_fuel L T j H).
+  intros j H. pose proof grammar_in_schema_holds as T. unfold grammar_in_schema in T.
+  destruct (lookup root_nt G_enc) as [sh|] eqn:L; [|discriminate].
+  exact (incl_sound G_enc schema_root schema_defs root_nt sh incl_fuel L T j H).
 Qed.
 
-Theorem full_dump_validates_modulo_known : forall t, loadable t = true -> known_gap t = false ->
-  exists fuel, validates_doc fuel (enc_full t) = Some true.
-Proof.
-  intros t Hl Hg. apply grammar_docs_validate. apply enc_in_grammar; [assumption|]. intros _. assumption.
-Qed.
+Theorem full_dump_validates : forall t, loadable t = true -> exists fuel, validates_doc fuel (enc_full t) = Some true.
+Proof. intros t Hl. apply grammar_docs_validate. now apply enc_in_grammar. Qed.
 
 (* a verdict reached with some fuel is the verdict for every fuel that reaches one *)
 Lemma verdict_unique : forall k j b, validates_doc k j = Some b -> forall fuel, validates_doc fuel j <> Some (negb b).
@@ -343,10 +280,20 @@ Proof.
   rewrite A in B. destruct b; discriminate.
 Qed.
 
-(* ---------- the five known gaps refute the unrestricted statement ---------- *)
+(* ---------- the hypothesis `loadable` is needed: trees only the API can build do not validate ---------- *)
 
 Definition mod_with (fp : fpath) (doc : option docstring) (members : list (string * obj)) : obj :=
   OObj KModule "m" "m" fp "m.py" "m.py" None None doc [] members.
+
+(* a class whose decorator has no line number (never produced by a load) *)
+Definition unloadable_tree : obj :=
+  mod_with (FPOne "/p/m.py") None
+    [("f", OObj (KClass [] [mkDeco (AStr "d") None None]) "f" "m.f" (FPOne "/p/m.py") "m.py" "m.py" (Some 1%Z) (Some 1%Z) None [] [])].
+
+Lemma loadable_needed : loadable unloadable_tree = false /\ forall fuel, validates_doc fuel (enc_full unloadable_tree) <> Some true.
+Proof. split; [vm_compute; reflexivity|]. apply (verdict_unique 64 _ false). vm_compute. reflexivity. Qed.
+
+(* ---------- the witnesses of the repaired findings C09-F1..F5 now validate ---------- *)
 
 Definition witness_F1 : obj := mod_with (FPList ["/p/m"]) None [].
 Definition witness_F2 : obj := mod_with (FPOne "/p/m.py") None [("a", OAlias "a" "os.a" "m.a" None None)].
@@ -357,51 +304,37 @@ Definition witness_F5 : obj :=
            (Some (mkDoc "d" (Some 1%Z) (Some 1%Z)
                         [mkSection "admonition" (SVElem [("annotation", JStr "note"); ("description", JStr "x")]) (Some "Note")])) [].
 
-Definition refutes (t : obj) (flags : list bool) : Prop :=
-  loadable t = true /\ local_gaps t = flags /\ validates_doc 64 (enc_full t) = Some false
-  /\ forall fuel, validates_doc fuel (enc_full t) <> Some true.
+Lemma former_gap_witnesses_validate :
+  forallb (fun t => loadable t && match validates_doc 64 (enc_full t) with Some true => true | _ => false end)
+          [witness_F1; witness_F2; witness_F3; witness_F4; witness_F5] = true.
+Proof. vm_compute. reflexivity. Qed.
 
-Ltac refute := split; [vm_compute; reflexivity|split; [vm_compute; reflexivity|split; [vm_compute; reflexivity|]]];
-               apply (verdict_unique 64 _ false); vm_compute; reflexivity.
-
-Lemma refuted_F1 : refutes witness_F1 [true; false; false; false; false]. Proof. refute. Qed.
-Lemma refuted_F3 : refutes witness_F3 [false; false; true; false; false]. Proof. refute. Qed.
-Lemma refuted_F4 : refutes witness_F4 [false; false; false; true; false]. Proof. refute. Qed.
-Lemma refuted_F5 : refutes witness_F5 [false; false; false; false; true]. Proof. refute. Qed.
-
-(* F2 sits on a member: the module itself has no local gap, its alias member has *)
-Lemma refuted_F2 : loadable witness_F2 = true
-  /\ map (fun nm => local_gaps (snd nm)) (node_members witness_F2) = [[false; true; false; false; false]]
-  /\ validates_doc 64 (enc_full witness_F2) = Some false
-  /\ forall fuel, validates_doc fuel (enc_full witness_F2) <> Some true.
-Proof. refute. Qed.
-
-Theorem full_dump_validates_refuted : exists t, loadable t = true /\ forall fuel, validates_doc fuel (enc_full t) <> Some true.
-Proof. exists witness_F1. destruct refuted_F1 as [A [_ [_ B]]]. auto. Qed.
-
-(* ---------- non-vacuity: a tree with every kind of node and no gap ---------- *)
+(* ---------- non-vacuity: a tree with every kind of node ---------- *)
 
 Definition sample_doc : docstring :=
   mkDoc "Summary." (Some 2%Z) (Some 4%Z)
         [mkSection "text" (SVText "Summary.") None;
-         mkSection "parameters" (SVItems [JObj [("name", JStr "a"); ("annotation", JNull); ("description", JStr "A.")]]) (Some "Parameters:")].
+         mkSection "parameters" (SVItems [JObj [("name", JStr "a"); ("annotation", JNull); ("description", JStr "A.")]]) (Some "Parameters:");
+         mkSection "modules" (SVItems []) None;
+         mkSection "deprecated" (SVElem [("annotation", JStr "1.0"); ("description", JStr "old")]) None].
 
 Definition sample_tree : obj :=
-  OObj KModule "pkg" "pkg" (FPOne "/p/pkg/__init__.py") "pkg/__init__.py" "pkg/__init__.py" None None (Some sample_doc) []
-    [("os", OAlias "os" "os" "pkg.os" (Some 1%Z) (Some 1%Z));
+  OObj KModule "pkg" "pkg" (FPList ["/p/pkg"]) "pkg" "pkg" None None (Some sample_doc) []
+    [("os", OAlias "os" "os" "pkg.os" None None);
      ("C", OObj (KClass [AStr "B"; AExpr [("cls", JStr "ExprName"); ("name", JStr "B")]] [mkDeco (AStr "deco") (Some 3%Z) (Some 3%Z)])
               "C" "pkg.C" (FPOne "/p/pkg/__init__.py") "pkg/__init__.py" "pkg/__init__.py" (Some 3%Z) (Some 9%Z) None ["dataclass"]
               [("f", OObj (KFunction [] [mkParam "self" ANone (Some "positional or keyword") ANone None;
                                          mkParam "x" (AStr "int") (Some "keyword-only") (AStr "1") (Some sample_doc)] ANone)
-                          "f" "pkg.C.f" (FPOne "/p/pkg/__init__.py") "pkg/__init__.py" "pkg/__init__.py" (Some 5%Z) (Some 6%Z) (Some sample_doc) [] []);
+                          "f" "pkg.C.f" (FPOne "/p/pkg/__init__.py") "pkg/__init__.py" "pkg/__init__.py" (Some 5%Z) (Some 6%Z)
+                          (Some (mkDoc "d" None None [])) [] []);
                ("a", OObj (KAttribute (AStr "1") ANone)
                           "a" "pkg.C.a" (FPOne "/p/pkg/__init__.py") "pkg/__init__.py" "pkg/__init__.py" (Some 7%Z) (Some 7%Z) None ["class-attribute"] [])])].
 
-Example sample_tree_in_domain : loadable sample_tree = true /\ known_gap sample_tree = false.
-Proof. vm_compute. auto. Qed.
+Example sample_tree_in_domain : loadable sample_tree = true.
+Proof. vm_compute. reflexivity. Qed.
 
 Example sample_tree_validates : validates_doc 64 (enc_full sample_tree) = Some true.
 Proof. vm_compute. reflexivity. Qed.
 
-Example sample_tree_member : mem (G_enc false) 40 (ShRef root_nt) (enc_full sample_tree) = true.
+Example sample_tree_member : mem G_enc 40 (ShRef root_nt) (enc_full sample_tree) = true.
 Proof. vm_compute. reflexivity. Qed.
